@@ -163,6 +163,19 @@ deriving DecidableEq, Repr, Inhabited
 def Item.render (it : Item) : String :=
   if it.sym = .s then "s" else s!"{it.sym.render}{it.lat}"
 
+/-- the five numbers of a `HealthCheckConfig` (what its getters report) -/
+structure Built where
+  interval : Nat
+  delay : Nat
+  timeout : Nat
+  sth : Nat
+  fth : Nat
+deriving DecidableEq, Repr, Inhabited
+
+/-- `HealthCheckConfig::default()` (config.rs 60-74), in ms: what `HealthCheckConfig::builder().build()` and
+`HealthCheckWrapperBuilder::new()` start from -/
+def crateDefault : Built := { interval := 5000, delay := 500, timeout := 2000, sth := 1, fth := 2 }
+
 structure Cfg where
   n : Nat
   sth : Nat
@@ -172,17 +185,24 @@ structure Cfg where
   delay : Nat
   strat : Strat
   dflt : Item
+  /-- `start()` is called when the wrapper is built (`start=0`: only by a later `manual start`) -/
+  autostart : Bool := true
+  /-- the `HealthCheckConfig` value handed to `with_config`, if that path was taken: what `probe config` reads -/
+  built : Option Built := none
 
 structure Slot where
   core : Ctx := {}
   hist : List Outcome := []      -- ghost: completed outcomes, oldest first
   script : List Item := []
+  changes : List (St × St) := [] -- ghost: the (old, new) pairs `on_health_change` is (or would be) called with
 deriving Repr
 
 structure Pending where
   r : Nat
   start : Nat
   item : Item
+  id : Nat                       -- serial number of the check (order of the `check()` calls of the case)
+  cur : Bool                     -- spawned by the periodic task that is running now (it awaits this check)
 deriving DecidableEq, Repr
 
 inductive Phase
@@ -191,13 +211,21 @@ inductive Phase
   | waiting (dl : Nat)      -- in `interval.tick()`, deadline `dl`
   | checking (next : Nat)   -- awaiting the join handles; the interval's next deadline is `next`
   | dead                    -- `interval(0)` panicked
+  | stopped                 -- no periodic task: `stop()` was called, or `start()` never
 deriving DecidableEq, Repr
 
 /-- typed events of this model -/
 inductive HEv
-  | checkStart (r : Nat) (it : Item)
-  | checkDone (r : Nat) (sym : Sym)
-  | checkDrop (r : Nat)
+  | checkStart (r : Nat) (it : Item) (k : Nat)
+  | checkDone (r : Nat) (sym : Sym) (k : Nat)
+  | checkDrop (r : Nat) (k : Nat)
+  | cbFailed (r : Nat)                       -- `on_check_failed(name, Elapsed)`
+  | cbChange (r : Nat) (old new : St)        -- `on_health_change(name, old, new)`
+  | started
+  | stopped
+  | config (b : Built)
+  | u8 (v : Nat)
+  | fresh (n : Nat)
   | status (r : Nat) (s : Option St)
   | details (r : Nat) (d : Option Ctx)
   | all (sts : List St)
@@ -211,17 +239,23 @@ structure State where
   phase : Phase := .spawned
   pending : List Pending := []
   ctr : Nat := 0                 -- round_robin_counter
+  nchk : Nat := 0                -- checks started so far (next serial)
   log : List HEv := []           -- ghost
 deriving Repr
 
 inductive Op
-  | adv (ms : Nat)
+  | adv (ms : Nat) (order : List Nat)   -- `order`: observed order of this step's completions (serials)
   | script (r : Nat) (items : List Item)
   | status (r : Nat)
   | details (r : Nat)
   | all
   | getHealthy
   | getUsable
+  | start                        -- `start()` (again)
+  | stop                         -- `stop()`
+  | config                       -- getters of the `HealthCheckConfig` value
+  | u8 (v : Nat)                 -- `HealthStatus::from(v as u8)` and back
+  | fresh (n : Nat)              -- `n` contexts made by `HealthCheckedContext::new`, a closure `Selector`, extensions
   | bad                          -- answered `noop`
   | idle                         -- not an operation of this middleware: time to run, nothing else
 deriving Repr
@@ -235,7 +269,9 @@ def updAt {α : Type} (l : List α) (i : Nat) (f : α → α) : List α :=
 def emit (s : State) (evs : List HEv) : State := { s with log := s.log ++ evs }
 
 def stepSlot (cfg : Cfg) (sl : Slot) (o : Outcome) : Slot :=
-  { sl with core := stepRes cfg.sth cfg.fth sl.core o, hist := sl.hist ++ [o] }
+  let c' := stepRes cfg.sth cfg.fth sl.core o
+  { sl with core := c', hist := sl.hist ++ [o],
+            changes := if sl.core.status = c'.status then sl.changes else sl.changes ++ [(sl.core.status, c'.status)] }
 
 def popScript (sl : Slot) : Slot := { sl with script := sl.script.tail }
 
@@ -247,13 +283,24 @@ def verdict (cfg : Cfg) (now start : Nat) (it : Item) : Option Outcome :=
   else if now ≥ start + cfg.timeout then some .timedOut
   else none
 
-def doneEv (r : Nat) (it : Item) : Outcome → HEv
-  | .timedOut => .checkDrop r
-  | _ => .checkDone r it.sym
+def doneEv (p : Pending) : Outcome → HEv
+  | .timedOut => .checkDrop p.r p.id
+  | _ => .checkDone p.r p.item.sym p.id
 
-/-- one check of resource `r` completes with outcome `o` -/
-def finish (cfg : Cfg) (s : State) (r : Nat) (it : Item) (o : Outcome) : State :=
-  emit { s with slots := updAt s.slots r (fun sl => stepSlot cfg sl o) } [doneEv r it o]
+def statusAt (slots : List Slot) (r : Nat) : St := ((slots[r]?).map (·.core.status)).getD .unknown
+
+/-- the observer callbacks of one completed check: `on_check_failed` when it timed out, `on_health_change`
+when (and only when) the published status changed. Whether callbacks are registered is not an input of the
+model's transition function at all (`Cfg` has no such field): the events are always recorded and `visible`
+hides them from the rendered log when none is registered. -/
+def callbacks (r : Nat) (o : Outcome) (old new : St) : List HEv :=
+  (if o = .timedOut then [.cbFailed r] else []) ++ (if old = new then [] else [.cbChange r old new])
+
+/-- the check `p` completes with outcome `o` -/
+def finish (cfg : Cfg) (s : State) (p : Pending) (o : Outcome) : State :=
+  let slots' := updAt s.slots p.r (fun sl => stepSlot cfg sl o)
+  emit { s with slots := slots' }
+    (doneEv p o :: callbacks p.r o (statusAt s.slots p.r) (statusAt slots' p.r))
 
 /-- the spawned check task of resource `r` runs: calls the checker, polls it once -/
 def startOne (cfg : Cfg) (s : State) (r : Nat) : State :=
@@ -261,22 +308,31 @@ def startOne (cfg : Cfg) (s : State) (r : Nat) : State :=
   | none => s
   | some sl =>
       let it := nextItem cfg sl
-      let s1 := emit { s with slots := updAt s.slots r popScript } [.checkStart r it]
+      let p : Pending := ⟨r, s.now, it, s.nchk, true⟩
+      let s1 := emit { s with slots := updAt s.slots r popScript, nchk := s.nchk + 1 } [.checkStart r it p.id]
       match verdict cfg s.now s.now it with
-      | some o => finish cfg s1 r it o
-      | none => { s1 with pending := s1.pending ++ [⟨r, s.now, it⟩] }
+      | some o => finish cfg s1 p o
+      | none => { s1 with pending := s1.pending ++ [p] }
 
 def startRound (cfg : Cfg) (s : State) : State :=
   (List.range s.slots.length).foldl (startOne cfg) s
 
 def finishOne (cfg : Cfg) (now : Nat) (s : State) (p : Pending) : State :=
   match verdict cfg now p.start p.item with
-  | some o => finish cfg s p.r p.item o
+  | some o => finish cfg s p o
   | none => { s with pending := s.pending ++ [p] }
 
-/-- every pending check that is due at this instant completes -/
-def finishDue (cfg : Cfg) (s : State) : State :=
-  s.pending.foldl (finishOne cfg s.now) { s with pending := [] }
+/-- the pending checks, those named in `order` first (in that order), the others after them as they were -/
+def arrange : List Nat → List Pending → List Pending
+  | [], ps => ps
+  | k :: tl, ps =>
+    match ps.find? (fun p => p.id = k) with
+    | some p => p :: arrange tl (ps.erase p)
+    | none => arrange tl ps
+
+/-- every pending check that is due at this instant completes — whoever spawned it -/
+def finishDue (cfg : Cfg) (order : List Nat) (s : State) : State :=
+  (arrange order s.pending).foldl (finishOne cfg s.now) { s with pending := [] }
 
 /-- `Interval::poll_tick`: deadline of the tick after the one with deadline `dl`, taken at `now` -/
 def nextTick (period now dl : Nat) : Nat :=
@@ -288,6 +344,7 @@ def quiesce (cfg : Cfg) : Nat → State → State
   | fuel + 1, s =>
     match s.phase with
     | .dead => s
+    | .stopped => s
     | .spawned => quiesce cfg fuel { s with phase := .initial (s.now + cfg.delay) }
     | .initial wake =>
         if s.now ≥ wake then
@@ -299,13 +356,15 @@ def quiesce (cfg : Cfg) : Nat → State → State
           quiesce cfg fuel (startRound cfg { s with phase := .checking (nextTick cfg.interval s.now dl) })
         else s
     | .checking next =>
-        let s' := finishDue cfg s
-        if s'.pending.isEmpty then quiesce cfg fuel { s' with phase := .waiting next } else s'
+        if s.pending.any (·.cur) then s else quiesce cfg fuel { s with phase := .waiting next }
+
+/-- the periodic task is aborted: the checks it spawned are tasks of their own and go on -/
+def orphan (ps : List Pending) : List Pending := ps.map fun p => { p with cur := false }
 
 def statuses (s : State) : List St := s.slots.map (·.core.status)
 
 def doOp (cfg : Cfg) (s : State) : Op → State
-  | .adv ms => { s with now := s.now + ms }
+  | .adv ms _ => { s with now := s.now + ms }
   | .script r items =>
       if r < s.slots.length then
         { s with slots := updAt s.slots r (fun sl => { sl with script := sl.script ++ items }) }
@@ -319,15 +378,28 @@ def doOp (cfg : Cfg) (s : State) : Op → State
   | .getUsable =>
       let (res, c) := getUsable cfg.strat (statuses s) s.ctr
       emit { s with ctr := c } [.got false res]
+  | .start => emit { s with phase := .spawned, pending := orphan s.pending } [.started]
+  | .stop => emit { s with phase := .stopped, pending := orphan s.pending } [.stopped]
+  | .config => emit s [match cfg.built with | some b => .config b | none => .noop]
+  | .u8 v => emit s [if v < 256 then .u8 v else .noop]
+  | .fresh n => emit s [if n ≤ 8 then .fresh n else .noop]
   | .bad => emit s [.noop]
   | .idle => s
+
+def orderOf : Op → List Nat
+  | .adv _ o => o
+  | _ => []
 
 /-- rounds at one instant are bounded by tokio's 5 ms tolerance (≤ 6 for a 1 ms period) -/
 def fuel : Nat := 40
 
-def stepS (cfg : Cfg) (s : State) (op : Op) : State := quiesce cfg fuel (doOp cfg s op)
+/-- one operation: its own effect, then every check that is due completes (in the observed order), then the
+periodic task runs as far as it can -/
+def stepS (cfg : Cfg) (s : State) (op : Op) : State :=
+  quiesce cfg fuel (finishDue cfg (orderOf op) (doOp cfg s op))
 
-def init (cfg : Cfg) : State := { slots := List.replicate cfg.n {} }
+def init (cfg : Cfg) : State :=
+  { slots := List.replicate cfg.n {}, phase := if cfg.autostart then .spawned else .stopped }
 def run (cfg : Cfg) (ops : List Op) : State := ops.foldl (stepS cfg) (init cfg)
 
 /-! ## rendering and line protocol -/
@@ -342,10 +414,34 @@ def renderOptNat : Option Nat → String
   | none => "none"
   | some i => toString i
 
+/-- `From<HealthStatus> for u8` / `From<u8> for HealthStatus` (lib.rs 93-113) -/
+def St.toU8 : St → Nat
+  | .healthy => 0 | .degraded => 1 | .unhealthy => 2 | .unknown => 3
+
+def St.ofU8 : Nat → St
+  | 0 => .healthy | 1 => .degraded | 2 => .unhealthy | _ => .unknown
+
+/-- `n` contexts straight from `HealthCheckedContext::new` are unknown with both counters 0 (the starting point
+of `runRes`); a closure used through the `Selector` trait sees exactly those statuses (first not-usable one: the
+first; first usable one: none); extensions are a typed side store (`u64` 7 under "x": read back as `u64`, not as
+`u32`, not under "y", visible through a clone) that leaves status and counters alone -/
+def renderFresh (n : Nat) : String :=
+  let sts := List.replicate n St.unknown
+  let all := if n = 0 then "-" else ",".intercalate (sts.map St.letter)
+  let ext := if n = 0 then "-" else "7/none/none/7"
+  s!"{all} f=0 s=0 sel={renderOptNat (position (fun st => !st.usable) sts)}/{renderOptNat (position St.usable sts)} ext={ext} after={all}"
+
 def HEv.toEv : HEv → Ev
-  | .checkStart r it => .raw s!"check_start {r} {it.render}"
-  | .checkDone r sym => .raw s!"check_done {r} {sym.render}"
-  | .checkDrop r => .raw s!"check_drop {r}"
+  | .checkStart r it k => .raw s!"check_start {r} {it.render} {k}"
+  | .checkDone r sym k => .raw s!"check_done {r} {sym.render} {k}"
+  | .checkDrop r k => .raw s!"check_drop {r} {k}"
+  | .cbFailed r => .raw s!"cb_failed {r}"
+  | .cbChange r old new => .raw s!"cb_change {r} {old.letter} {new.letter}"
+  | .started => .raw "started"
+  | .stopped => .raw "stopped"
+  | .config b => .probe s!"config = iv={b.interval} delay={b.delay} to={b.timeout} sth={b.sth} fth={b.fth}"
+  | .u8 v => .probe s!"u8 v={v} = {(St.ofU8 v).render} {(St.ofU8 v).toU8}"
+  | .fresh n => .probe s!"fresh n={n} = {renderFresh n}"
   | .status r none => .probe s!"status r={r} = none"
   | .status r (some st) => .probe s!"status r={r} = {st.render}"
   | .details r none => .probe s!"details r={r} = none"
@@ -371,7 +467,10 @@ def parseItems (s : String) : Option (List Item) :=
 
 def parseOp (ws : List String) : Op :=
   match ws with
-  | "adv" :: ms :: _ => .adv (ms.toNat?.getD 0)
+  | "adv" :: ms :: rest =>
+      .adv (ms.toNat?.getD 0) (rest.filterMap fun w => if w.startsWith "@o=" then (w.drop 3).toString.toNat? else none)
+  | "manual" :: "start" :: _ => .start
+  | "manual" :: "stop" :: _ => .stop
   | "manual" :: "script" :: rest =>
       let kv := parseKv rest
       match kv.optNat "r", (kv.get "seq").bind parseItems with
@@ -385,6 +484,11 @@ def parseOp (ws : List String) : Op :=
   | "probe" :: "all" :: _ => .all
   | "probe" :: "get_healthy" :: _ => .getHealthy
   | "probe" :: "get_usable" :: _ => .getUsable
+  | "probe" :: "config" :: _ => .config
+  | "probe" :: "u8" :: rest =>
+      match (parseKv rest).optNat "v" with | some v => .u8 v | none => .bad
+  | "probe" :: "fresh" :: rest =>
+      match (parseKv rest).optNat "n" with | some n => .fresh n | none => .bad
   | "probe" :: _ => .bad
   | "arrive" :: _ => .bad
   | _ => .idle
@@ -402,18 +506,57 @@ def parseStrat (s : String) : Strat :=
   else if s = "second" then .custom (fun _ => some 1)
   else .first
 
+/-- `post=fth:3,to:7`: wrapper-builder setters called after `with_config` -/
+def applyOv (b : Built) (kv : String) : Built :=
+  match kv.splitOn ":" with
+  | [k, v] =>
+    match v.toNat? with
+    | none => b
+    | some x =>
+      if k = "iv" then { b with interval := x }
+      else if k = "delay" then { b with delay := x }
+      else if k = "to" then { b with timeout := x }
+      else if k = "sth" then { b with sth := x }
+      else if k = "fth" then { b with fth := x }
+      else b
+  | _ => b
+
+def applyOvs (b : Built) (s : String) : Built := (s.splitOn ",").foldl applyOv b
+
+/-- the configuration a case header describes. `via=cfg`: a `HealthCheckConfig` built by its own builder (setters
+only for the keys present, the crate's defaults otherwise) and handed over by `with_config`, which replaces whatever
+the wrapper builder was told before (`pre=` is without effect); setters called afterwards (`post=`) override it.
+Otherwise the wrapper builder's own setters, all of them (the harness's defaults for absent keys). -/
+def cfgOf (kv : Kv) : Cfg :=
+  let viaCfg := kv.str "via" "builder" = "cfg"
+  let d : Built := if viaCfg then crateDefault else { interval := 10, delay := 0, timeout := 5, sth := 1, fth := 2 }
+  let b : Built := { interval := kv.nat "iv" d.interval, delay := kv.nat "delay" d.delay, timeout := kv.nat "to" d.timeout,
+                     sth := kv.nat "sth" d.sth, fth := kv.nat "fth" d.fth }
+  let e : Built := if viaCfg then applyOvs b (kv.str "post" "") else b
+  { n := kv.nat "n" 1, sth := e.sth, fth := e.fth, interval := e.interval, timeout := e.timeout, delay := e.delay,
+    strat := parseStrat (kv.str "strat" "first"),
+    dflt := (parseItem (kv.str "dflt" "k")).getD { sym := .k, lat := 0 },
+    autostart := kv.nat "start" 1 != 0,
+    built := if viaCfg then some b else none }
+
+def HEv.isCallback : HEv → Bool
+  | .cbFailed _ => true
+  | .cbChange _ _ _ => true
+  | _ => false
+
+/-- what of the recorded events is observable: the callback events only when callbacks are registered -/
+def visible (cb : Bool) (evs : List HEv) : List HEv :=
+  if cb then evs else evs.filter (fun e => !e.isCallback)
+
+/-- `on_health_change` / `on_check_failed` are registered: only possible through `HealthCheckConfig::builder()` -/
+def cbOf (kv : Kv) : Bool := kv.str "via" "builder" = "cfg" && kv.nat "cb" 0 = 1
+
 def machine : Machine where
-  σ := Cfg × State
-  init kv :=
-    let cfg : Cfg := {
-      n := kv.nat "n" 1, sth := kv.nat "sth" 1, fth := kv.nat "fth" 2,
-      interval := kv.nat "iv" 10, timeout := kv.nat "to" 5, delay := kv.nat "delay" 0,
-      strat := parseStrat (kv.str "strat" "first"),
-      dflt := (parseItem (kv.str "dflt" "k")).getD { sym := .k, lat := 0 } }
-    (cfg, init cfg)
-  step := fun (cfg, s) ws =>
+  σ := Bool × Cfg × State
+  init kv := (cbOf kv, cfgOf kv, init (cfgOf kv))
+  step := fun (cb, cfg, s) ws =>
     let s' := stepS cfg s (parseOp ws)
-    ((cfg, s'), (s'.log.drop s.log.length).map HEv.toEv)
-  now := fun (_, s) => s.now
+    ((cb, cfg, s'), (visible cb (s'.log.drop s.log.length)).map HEv.toEv)
+  now := fun (_, _, s) => s.now
 
 end TR.Health
